@@ -295,11 +295,29 @@ class Scheduler(Hooks):
             return
         self.armed[id(session)] = False
         self.points += 1
+        real = not hasattr(session, 'view')
+        dbapi = None
+        if real:
+            # all requests share the one DBAPI connection of the in-memory
+            # SQLite database: end this (so far read-only) transaction at
+            # the driver level before another request runs, otherwise the
+            # other request's COMMIT ends it and the statements that follow
+            # here run in autocommit mode
+            try:
+                dbapi = session.connection().connection.dbapi_connection
+                dbapi.rollback()
+            except Exception:
+                dbapi = None
         self.main.switch('txn')
         # resumed: this transaction has done nothing but read uncontended
         # tables so far; let it see the current committed state
         if hasattr(session, 'view') and not session.dirty:
             session.view = session.db.committed.copy()
+        if dbapi is not None:
+            try:
+                dbapi.execute('BEGIN')
+            except Exception:
+                pass
         if self.observe is not None:
             self.observe(self.index.get(g), session, 'txn-start')
 
